@@ -31,12 +31,14 @@ CLAIMED = {
             "Taster on every generated well-formed plotfile under all 16 option sets, limits and both modes.",
             "binary_data and boxes_coordinates compare floats (numpy isclose): outside the Lean model, decided on the real code against the oracle."),
     "C04": ("Lean 4 soundness theorem of the validator walk + corruption sweep as correspondence check",
-            "Proof: Taste.shapeOK_sound / go_sound (if the byte walk accepts a file then the file is a chain header-line, payload of the "
+            "Proof: C04.level_accepts / accepted_level_is_chain (acceptance of a level decomposes into: header parses, files present, header check and "
+            "byte walk accept each file in offset order; hence each file is a chain), Taste.shapeOK_sound / go_sound (if the byte walk accepts a file then the file is a chain header-line, payload of the "
             "announced size, canonical next header, ... ending exactly at EOF) so each listed layout fault is the negation of a conjunct; "
             "every corruption operator x site (singly and in pairs) is run through Taster in both modes and through the Lean "
             "whole-plotfile model on identical bytes.", "Degenerate (negative-size) headers on the walk are a separate disjunct (NoDegenerate hypothesis)."),
     "C15": ("Lean 4 theorem on the sequential file scan + schedule exploration as correspondence check",
-            "Proof: Scan.scan_fileOf (the scan of a well-formed file returns the selected block of every FAB exactly once, in disk order, and "
+            "Proof: C15.level_iteration_perm (however the boxes are distributed over files, the chained per-file scans return a permutation of the level's boxes: each exactly once, "
+            "finite), from Scan.scan_fileOf (the scan of a well-formed file returns the selected block of every FAB exactly once, in disk order, and "
             "stops); level iteration is run under several start orders of the per-file tasks and a real pool, compared as multisets with "
             "the stored boxes and, for single fields, element-wise with the model's scan.",
             "multiprocessing imap ordering contract assumed; OS scheduling only sampled with real pools."),
@@ -68,16 +70,18 @@ CLAIMED = {
             "finest covering box's value), Cover.region_iff, repeat_reshape_index; outputs compared bit for bit with the oracle and the model.",
             "numpy repeat/reshape/slice assignment are modelled by their index arithmetic."),
     "C10": ("Lean 4 theorems on the covering-grid model and commuting disjoint writes + completion-order exploration",
-            "Proof: Grid.coverAt_last / Cover.cover_finest (covering grid) and Probe.write_comm (writes to disjoint regions commute, so the "
+            "Proof: Grid.coverAt_last / Cover.cover_finest (covering grid), C10.any_arrival_order (any permutation of pairwise-disjoint region writes gives the same array) "
+            "and the regenerated obligation that imap_unordered is only used in whip; Probe.write_comm (writes to disjoint regions commute, so the "
             "array does not depend on the completion order of the per-file tasks within a level); whip's CLI is run in-process under "
             "every completion order (<= 4 files) and compared cell for cell with the oracle and the model for both dtypes and limits.",
             "numpy dtype casts are compared on the real output only."),
     "C09": ("Lean 4 theorem on pestle's covering masks (3-D) + exact rational correspondence check",
-            "Proof: Pestle.mask_correct (for every even occupancy resolution to which all box faces are aligned the mask is defined and marks "
+            "Proof: C09.integral_eq_sum_over_uncovered (for any number of levels and any mix of box sizes aligned to the resolution, the model's integral IS the sum over "
+            "the cells not covered by a finer selected level of value x cell volume), from Pestle.mask_correct (for every even occupancy resolution to which all box faces are aligned the mask is defined and marks "
             "exactly the cells no finer box covers, three dimensions) with aligned_lo_iff/aligned_hi_iff/mask_extent/factor_eq/maskEntry_eq; "
             "the integral is compared with the exact rational sum over uncovered cells (oracle) and with the Lean model's integral and "
             "specification on mixed-size, partially refined, anisotropic meshes for every limit and volfrac setting.",
-            "Floating-point summation compared at rtol 1e-9; the lifting of mask_correct to the sum over boxes and levels is checked by the driver's spec/model agreement, not yet a theorem."),
+            "Floating-point summation compared at rtol 1e-9 (the theorem is over Rat); volfrac is a pointwise product applied before the sum."),
     "C11": ("Lean 4 theorem on the record-level chef model + differential correspondence check with independent recipe evaluation",
             "Proof: Writers.chef_data (entry i of chef's level header points at a record that is box i = kept components then the recipe's, for "
             "any input layout; disk-order visiting via assemble_data_ord / goodOrder_offset); outputs parsed by the oracle, tasted, every "
@@ -101,14 +105,15 @@ CLAIMED = {
             "with the stored values and with the Lean matching model (single-box case, box, local index).",
             "scipy map_coordinates at integer indices is a parameter; only CASE 1 (single box) is in the property and the model."),
     "C16": ("Lean 4 theorems on chunk arithmetic and the column model (truncated levels) + per-cell correspondence check",
-            "Proof: Chunks.chunks_le (the repaired chunk size never needs more files than names), Column.slice_initialised / slice_affine applied "
+            "Proof: C16.every_box_written_once (for all n and nfiles the chunks concatenate to all n boxes, in order), Chunks.chunks_le (the repaired chunk size never needs more files than names), Column.slice_initialised / slice_affine applied "
             "to the configuration truncated to levels 0..l (the data written for level l), the regenerated FAB header literal "
             "(mandolineHeader_eq_utilsHeader, without which taste rejects the slice) and threshold; every cell of every written box is compared "
             "with the Python specification and the Lean column model, the listed boxes with the footprints the plane meets, outputs are tasted "
             "with box coordinates, incl. a slice above the one-megabyte threshold.",
             "Header rendering of the 2D plotfile is checked by the oracle on the real output; floats at rtol 1e-9."),
     "C12": ("Lean 4 theorems on interleavings of tasks with disjoint path sets + exhaustive order exploration with a controlled pool",
-            "Proof: Sched.merge_run and Sched.mergeAll_run (any interleaving of any number of tasks touching pairwise disjoint paths ends in the "
+            "Proof: C12.any_interleaving / interleavings_agree (Sched.mergeAll_run), task_outputs_distinct (per-file output paths are injective in the basename), "
+            "unordered_results (any arrival order of disjoint writes), unordered_delivery_only_in_whip (regenerated from the sources); Sched.merge_run and Sched.mergeAll_run (any interleaving of any number of tasks touching pairwise disjoint paths ends in the "
             "same file system as running them one after the other); the hypothesis is audited on the real code (sys.addaudithook: write and read "
             "sets of the tasks of every pool call are pairwise disjoint) and every tool is run under every start order (<= 4 tasks per call, "
             "rotations beyond) and completion order, in serial mode, and with real pools of 1/2/3/16 workers, comparing trees byte for byte and "
@@ -116,17 +121,21 @@ CLAIMED = {
             "The model cannot exhibit OS-level scheduling or fork-time global state (chef's module globals); those are only sampled with real pools. "
             "The contract of map/imap (results in submission order) is assumed."),
     "C13": ("Lean 4 theorems on default output paths (POSIX path model) + write audit and fault injection at every write-side call",
-            "Proof: Paths.concat_not_inside (normpath(p)+suffix is never inside p: chef, marinate) and concat_inside_trailing_slash (the pinned "
+            "Proof: C13.concat_not_inside / sibling_not_inside / sibling_ne_iff (every repaired default output is a sibling of the input, never inside it), "
+            "C13.fault_propagates (effects model: a fault at any write-side call raises when no write sits in a swallowing try block) with the regenerated "
+            "obligation no_swallowed_writes_in_source (AST of every module, every run); Paths.concat_not_inside (normpath(p)+suffix is never inside p: chef, marinate) and concat_inside_trailing_slash (the pinned "
             "concatenation is, for every input written with a trailing slash); on the real code every invocation form is run with all inputs "
             "hashed before and after, every write seen by sys.addaudithook checked against the allowed roots, and an OSError injected at every "
             "open-for-write / write / mkdir call of the run, which must surface as an exception or non-zero exit.",
             "Partial: the claim about arbitrary I/O faults rests on the enumeration over the real code (Python-level write calls; numpy/zipfile-internal writes are not intercepted); crash points between calls are not modelled."),
     "C14": ("Lean 4 per-tool data theorems composed along operation sequences + pipeline exploration against pure operations",
-            "Proof: Writers.colander_data, combine_data, chef_data, chk_data (each tool's output record for box i is the pure operation on box i); "
+            "Proof: C14.pipeline_refines (for EVERY finite sequence of strain / cook / combine operations the contents of the result equal the composed pure operations, "
+            "by induction from step_refines), strain_all_id, cook_then_combine_back (the two corollaries the property names), on top of "
+            "Writers.colander_data, combine_data, chef_data, chk_data (each tool's output record for box i is the pure operation on box i); "
             "pipelines over {colander, combine with sibling/ancestor, chef} (all sequences of length <= 2 over kinds, sampled to length 4, plus "
             "chk2plt sources) are run on disk with every intermediate tasted, parsed by the oracle and compared bit for bit with the composed pure "
             "operations; the two named corollaries are explicit cases.",
-            "The induction over sequences is generic (each step refines its pure operation); header re-parsing of every writer's output is checked by the oracle on real outputs."),
+            "Record level, one AMR level (tools treat levels independently); header re-parsing of every writer's output is checked by the oracle on real outputs."),
 }
 
 NOT_YET = {}
